@@ -492,7 +492,7 @@ func rewriteSpec(s string) (string, error) {
 	return out, nil
 }
 
-var callsRe = regexp.MustCompile(`(^|[^\w.])(calls|lastargn|lastarg|lastresn|lastres|same|raw|fst3|snd3|thd3|fst|snd|le64|haskey)\(`)
+var callsRe = regexp.MustCompile(`(^|[^\w.])(calls|lastargn|lastarg|lastresn|lastres|nthres|same|raw|fst3|snd3|thd3|fst|snd|le64|haskey)\(`)
 var istypeRe = regexp.MustCompile(`(^|[^\w.])(istype|ptr)\[`)
 var oldRe = regexp.MustCompile(`(^|[^\w.])old\(`)
 var freshRe = regexp.MustCompile(`(^|[^\w.])fresh\(`)
